@@ -271,6 +271,8 @@ class ExtRef(M.Ref_):
 def ext_ref_deserialize(td, d, realm: M.Realm, opts: M.Opts):
     try:
         return ("ok", ExtRef(realm, opts).deser(td, d))
+    except TypeError:  # data with keys of mixed classes: outside the reference's domain (never a value source)
+        return ("err", [((), "outside the reference domain")])
     except M.Rejected as r:
         try:
             return ("err", r.err.flat())
